@@ -146,7 +146,7 @@ func (m *Monitor) BeforeOp(op Op) {
 // eval computes a node's value from scratch from the harness's record of the program.
 // Inputs: the vars' current values and the held values of history-dependent cutoffs.
 func (m *Monitor) eval(id int, depth int) (int, bool) {
-	if depth > 400 {
+	if depth > 400 || m.Cyclic || m.Rejected {
 		return 0, false
 	}
 	ref := m.E.Nodes[id]
@@ -273,8 +273,30 @@ func (m *Monitor) AfterOp(op Op, s Sample) {
 		m.Rejected = true
 	}
 	if op.K == "AddInput" && s.Class == "XOk" && !m.Cyclic && m.dependsOn(op.B, op.A, map[int]bool{}) {
+		if e.Registered(op.A) {
+			// C18: linking an edge that closes a cycle in the graph must be refused
+			m.add("C18", "cycle-accepted", fmt.Sprintf("%s closes a cycle through nodes of the graph but was accepted", op.String()))
+		}
 		m.Cyclic = true
 		m.CyclicAt = len(e.Ops)
+	}
+	if op.K == "AddInput" && s.Class == "XOk" && !m.Cyclic && !m.Rejected && e.Registered(op.A) {
+		// C18: after a successful link every dependent is strictly above all its inputs
+		bad := ""
+		for id, ref := range e.Nodes {
+			if ref == nil || ref.Recycled || !e.G.Has(ref.INode) {
+				continue
+			}
+			en := incr.ExpertNode(ref.INode)
+			for _, p := range en.Parents() {
+				if en.Height() <= incr.ExpertNode(p).Height() {
+					bad = fmt.Sprintf("n%d at height %d, input at height %d", id, en.Height(), incr.ExpertNode(p).Height())
+				}
+			}
+		}
+		if bad != "" {
+			m.add("C18", "heights-not-repaired", fmt.Sprintf("after %s (accepted) a dependent is not above its input: %s", op.String(), bad))
+		}
 	}
 	if s.Crashed {
 		prop := "C05"
@@ -646,6 +668,11 @@ func (e *Exec) Valid(op Op) bool {
 // Replay runs a fixed history with the monitors on; ok=false if some operation is ill-formed.
 func Replay(maxHeight int, ops []Op) (e *Exec, m *Monitor, ok bool) {
 	e = NewExec(maxHeight)
+	for _, op := range ops {
+		if op.K == "NewMapN" && len(op.Ins) > 32 {
+			e.Sorted = true
+		}
+	}
 	m = NewMonitor(e)
 	for _, op := range ops {
 		if !e.Valid(op) {
@@ -654,7 +681,9 @@ func Replay(maxHeight int, ops []Op) (e *Exec, m *Monitor, ok bool) {
 		m.BeforeOp(op)
 		s := e.Do(op)
 		m.AfterOp(op, s)
-		if s.Crashed {
+		if s.Crashed || m.Rejected || (m.Cyclic && len(m.Findings) > 0) {
+			// the state after a structural rejection (or of a cyclic program) is a recorded
+			// finding; later operations on it say nothing more (and can hang)
 			break
 		}
 	}
